@@ -31,7 +31,7 @@ ASSUMPTIONS = ["mtime is advanced by whole seconds through os.utime (logical clo
                "CRC32 collisions between different generated sources are not sampled"]
 REQUIRED_MONITORS = ["evaluates_current_sources", "source_to_library_injective", "cache_listing_is_image"]
 REQUIRED_BUCKETS = {"quick": ["op:edit_py_const", "op:edit_py_default", "op:edit_inc", "op:edit_template", "op:dtype",
-                              "op:revert", "op:edit_source_list", "op:load_with_other_integration_size", "loader:core", "loader:sasview", "loader:composite", "loader:nested", "loader:modelpath", "eval:while-definition-broken", "eval:same_process", "eval:fresh_process", "revert_then_same_process",
+                              "op:revert", "op:edit_source_list", "op:load_with_other_integration_size", "loader:core", "loader:sasview", "loader:composite", "loader:nested", "loader:modelpath", "cache-directory:deep-path", "include-names:same-as-library-files", "eval:while-definition-broken", "eval:same_process", "eval:fresh_process", "revert_then_same_process",
                               "default_only_edit_then_same_process", "clock:past", "clock:future", "clock:near-now", "clock:subsecond"]}
 REQUIRED_BUCKETS["thorough"] = REQUIRED_BUCKETS["quick"]
 HERE = os.path.dirname(os.path.abspath(__file__))
@@ -43,13 +43,16 @@ def gen_cases(tier, seed):
     return [{"id": "hist/%04d" % h, "h": h, "seed": seed, "group": "h%d" % h, "cost": 1.0} for h in range(n)]
 
 
-def py_text(K, D, S=1):
+INC_NAMES = ("m_inc.c", "m_inc2.c")
+
+
+def py_text(K, D, S=1, inc_names=INC_NAMES):
     return ('r"""cache probe"""\nfrom numpy import inf\nname = "rtm_cache_probe"\ntitle = "probe"\ndescription = "probe"\n'
             'category = "shape:sphere"\nparameters = [["p_default", "", %d, [-inf, inf], "", "default carries a version"]]\n'
             'source = ["lib/gauss76.c", "%s"]\nIq = """\n    if (q < 0.15) return %d.0;\n    if (q < 0.25) return inc_version();\n'
             '    if (q < 0.35) return RTM_TEMPLATE_VERSION;\n    if (q < 0.45) return FLOAT_SIZE;\n    if (q < 0.55) return p_default;\n'
             '    return GAUSS_N;\n"""\n'
-            % (D, "m_inc.c" if S == 1 else "m_inc2.c", K))
+            % (D, inc_names[0] if S == 1 else inc_names[1], K))
 
 
 def inc_text(V):
@@ -57,16 +60,25 @@ def inc_text(V):
 
 
 class World:
-    def __init__(self, root, epoch="past"):
+    def __init__(self, root, epoch="past", deep_cache=False, colliding_names=False):
         self.root = root
+        # the plugin's own include files may carry the names of files of the model library (a private, edited copy of
+        # lib/sas_gamma.c next to the plugin): the plugin's directory is searched first
+        self.inc_names = ("lib/sas_gamma.c", "lib/sas_erf.c") if colliding_names else INC_NAMES
         self.pkg = os.path.join(root, "pkg")
         subprocess.run(["rsync", "-a", "--exclude", "__pycache__", os.path.join(core.REPO, "sasmodels"), self.pkg + "/"],
                        check=True)
         self.plug = os.path.join(root, "plug")
         os.makedirs(self.plug)
         self.cache = os.path.join(root, "cache")
-        self.files = {"py": os.path.join(self.plug, "m.py"), "inc": os.path.join(self.plug, "m_inc.c"),
-                      "inc2": os.path.join(self.plug, "m_inc2.c"),
+        if deep_cache:
+            # a cache directory deep down in the file system (library paths of 300+ characters)
+            while len(self.cache) < 300:
+                self.cache = os.path.join(self.cache, "a-rather-long-directory-name-as-shared-project-areas-have-them")
+        if colliding_names:
+            os.makedirs(os.path.join(self.plug, "lib"))
+        self.files = {"py": os.path.join(self.plug, "m.py"), "inc": os.path.join(self.plug, self.inc_names[0]),
+                      "inc2": os.path.join(self.plug, self.inc_names[1]),
                       "tpl": os.path.join(self.pkg, "sasmodels", "kernel_header.c")}
         self.tpl_base = open(self.files["tpl"]).read()
         # one logical clock for all files: wall-clock time is global, so a later edit of any file carries
@@ -100,7 +112,7 @@ class World:
 
     def text(self, which):
         s = self.state
-        return {"py": py_text(s["K"], s["D"], s["S"]), "inc": inc_text(s["V"]), "inc2": inc_text(s["V2"]),
+        return {"py": py_text(s["K"], s["D"], s["S"], self.inc_names), "inc": inc_text(s["V"]), "inc2": inc_text(s["V2"]),
                 "tpl": self.tpl_base + "\n#define RTM_TEMPLATE_VERSION %d\n" % s["T"]}[which]
 
     def write(self, which, snapshot=None, broken=False):
@@ -205,7 +217,12 @@ def run_case(case, rec):
     root = tempfile.mkdtemp(prefix="c17-", dir=os.environ.get("RTM_SCRATCH"))
     epoch = ["past", "future", "subsecond", "near-now", "past"][case["h"] % 5]
     rec.bucket("clock:" + epoch)
-    w = World(root, epoch)
+    deep, collide = case["h"] % 5 == 3, case["h"] % 4 == 2
+    if deep:
+        rec.bucket("cache-directory:deep-path")
+    if collide:
+        rec.bucket("include-names:same-as-library-files")
+    w = World(root, epoch, deep_cache=deep, colliding_names=collide)
     dtype = "double"
     ops = gen_history(rng, case["h"])
     keymap = {}
